@@ -121,7 +121,7 @@ def run_benign(only=None):
             ev = tempfile.mkdtemp(prefix="dgmut-ev-")
             env = dict(os.environ, VERIF_REPO=d, VERIF_EVIDENCE_DIR=ev, VERIF_REPORT_DIR=ev, VERIF_FACTS_TAG="ben-")
             env.setdefault("VERIF_CACHE_DIR", os.path.join(VERIF, ".cache", "selftest"))
-        env.setdefault("VERIF_SKIP_ENGINE_SELFTEST", "1")
+            env.setdefault("VERIF_SKIP_ENGINE_SELFTEST", "1")
             r = subprocess.run([os.path.join(VERIF, "check"), m.get("props", "all")], env=env, capture_output=True, text=True)
             shutil.rmtree(ev, ignore_errors=True)
             alarms = [l.strip() for l in r.stdout.splitlines() if l.startswith("  C") and "|" in l]
